@@ -36,7 +36,9 @@ pub fn set_prune(f: Option<PruneFn>) {
 }
 
 pub fn begin(answers: &[u32], max_draws: usize) {
+    // announcements left behind by an unscripted run on this thread (nobody consumed them) must not leak into this one
     let _ = choice::take();
+    let _ = choice::take_f32_bounds();
     SCRIPT.with(|s| *s.borrow_mut() = ScriptState { answers: answers.to_vec(), pos: 0, trace: vec![], max_draws, unannounced: 0, lcg: 0x9E3779B97F4A7C15, error: None });
 }
 
@@ -57,7 +59,47 @@ fn craft(k: u64, n: u64, is_bool: bool, wide: bool) -> u64 {
     }
 }
 
+/// a uniform f32 in [0,1) that the code compares with running sums: the answer picks the bucket; the crafted word
+/// makes rand 0.9's `random::<f32>()` ((word >> 8) * 2^-24) land inside it
+fn draw_bucket(bounds: Vec<f32>) -> u64 {
+    let mut buckets: Vec<u32> = vec![];
+    let mut lo = 0f32;
+    for hi in bounds.into_iter().chain(std::iter::once(1.0f32)) {
+        let hi = hi.min(1.0);
+        if hi > lo {
+            // a representable value v * 2^-24 with lo <= value < hi, if there is one
+            let scale = 16777216.0f32;
+            let mid = (((lo + hi) / 2.0) * scale).floor();
+            let cands = [mid, (lo * scale).ceil()];
+            if let Some(v) = cands.iter().copied().find(|&v| v >= 0.0 && v < scale && v / scale >= lo && v / scale < hi) {
+                buckets.push(v as u32);
+            }
+            lo = hi;
+        }
+    }
+    SCRIPT.with(|s| {
+        let mut s = s.borrow_mut();
+        let n = buckets.len() as u64;
+        if s.trace.len() >= s.max_draws {
+            drop(s);
+            panic!("{}", DRAW_LIMIT_MSG);
+        }
+        let k = s.answers.get(s.pos).copied().unwrap_or(0) as u64;
+        s.pos += 1;
+        if n == 0 || k >= n {
+            s.error = Some(format!("scripted bucket {} out of range {} at draw {}", k, n, s.pos - 1));
+            drop(s);
+            panic!("scripted choice out of range (replay divergence)");
+        }
+        s.trace.push((k as u32, n as u32));
+        (buckets[k as usize] as u64) << 8
+    })
+}
+
 fn draw(wide: bool) -> u64 {
+    if let Some(bounds) = choice::take_f32_bounds() {
+        return draw_bucket(bounds);
+    }
     let pend = choice::take();
     SCRIPT.with(|s| {
         let mut s = s.borrow_mut();
@@ -186,6 +228,33 @@ pub fn calibrate() -> Result<u64, String> {
             let got = ScriptedRng.random_range(0..n);
             if got != k {
                 return Err(format!("random_range(0..{}) scripted {} gave {}", n, k, got));
+            }
+            checked += 1;
+        }
+    }
+    // f32 buckets: every bucket of a few width profiles is hit exactly
+    for widths in [[0.2f32, 0.2, 0.2, 0.2, 0.2], [1.0, 0.0, 0.0, 0.0, 0.0], [0.1, 0.15, 0.2, 0.25, 0.3], [0.1, 0.1, 0.1, 0.1, 0.1], [0.0, 0.5, 0.0, 0.0, 0.5]] {
+        let mut bounds = vec![];
+        let mut p0 = 0f32;
+        for w in widths {
+            p0 += w;
+            bounds.push(p0);
+        }
+        let mut reachable: Vec<usize> = vec![];
+        let mut lo = 0f32;
+        for (i, &hi) in bounds.iter().chain(std::iter::once(&1.0f32)).enumerate() {
+            if hi.min(1.0) > lo {
+                reachable.push(i);
+                lo = hi.min(1.0);
+            }
+        }
+        for (k, &want) in reachable.iter().enumerate() {
+            begin(&[k as u32], 4);
+            choice::announce_unit_f32(&widths);
+            let p: f32 = ScriptedRng.random();
+            let got = bounds.iter().position(|&b| p < b).unwrap_or(bounds.len());
+            if got != want {
+                return Err(format!("f32 bucket {} of {:?} scripted, value {} fell into bucket {}", want, widths, p, got));
             }
             checked += 1;
         }
